@@ -63,6 +63,8 @@ fn joint_names(naming: &str, tag: &str) -> [String; 6] {
         "prefix-upper" => format!("${{prefix}}JOINT_{}", i + 1),
         "underscore" => format!("joint_{}", i + 1),
         "kuka-a" => format!("${{prefix}}joint_a{}", i + 1),
+        "literal-prefix-a" => format!("left_arm_joint_a{}", i + 1),      // a literal prefix that contains the tag letter
+        "literal-prefix" => format!("leftJOINT_{}!", i + 1),            // the form used in the crate's own unit test
         _ => format!("{}_axis_{}", tag, i),
     })
 }
@@ -196,12 +198,30 @@ pub fn replay(input: &str, output: &str) {
             faults.push(("empty", String::new()));
             faults.push(("not-xml", "joint1 joint2".to_string()));
             if line["copies"] == "identical-duplicate" {
-                // make the second copy of one joint differ: conflicting duplicate
-                if let Some(pos) = xml.rfind("<axis xyz=") { let mut x = xml.clone(); x.replace_range(pos..pos + 10, "<axis xzz="); faults.push(("conflicting-duplicate", x)); }
+                // the second copy of one joint differs in exactly one respect: axis direction, origin, or limits
+                if let Some(pos) = xml.rfind("<axis xyz=\"") {
+                    let rest = &xml[pos..];
+                    if let Some(end) = rest.find("\"/>") {
+                        let old = &rest[11..end];
+                        let flipped = old.split(' ').map(|t| match t { "1" => "-1", "-1" => "1", x => x }).collect::<Vec<_>>().join(" ");
+                        let mut x = xml.clone();
+                        x.replace_range(pos + 11..pos + end, &flipped);
+                        faults.push(("conflicting-duplicate-axis", x));
+                    }
+                }
+                if let Some(pos) = xml.rfind("<origin xyz=\"") {
+                    // (the last origin belongs to the fixed flange joint of the single copy; take the one before it)
+                    if let Some(pos2) = xml[..pos].rfind("<origin xyz=\"") {
+                        let mut x = xml.clone();
+                        x.replace_range(pos2..pos2 + 13, "<origin xyz=\"0.001");
+                        faults.push(("conflicting-duplicate-origin", x));
+                    }
+                }
+                if let Some(pos) = xml.rfind("upper=\"") { let mut x = xml.clone(); x.insert_str(pos + 7, "1"); faults.push(("conflicting-duplicate-limit", x)); }
             }
             for (name, text) in faults {
                 evals += 1;
-                let must_err = matches!(name, "missing-joint" | "truncated-xml" | "short-xyz" | "non-numeric-xyz" | "empty" | "not-xml");
+                let must_err = matches!(name, "missing-joint" | "truncated-xml" | "short-xyz" | "non-numeric-xyz" | "empty" | "not-xml" | "conflicting-duplicate-axis" | "conflicting-duplicate-origin");
                 match extract(&text, &names) {
                     Got::Panic => out.put(json!({"sig": format!("urdf:faulty-description-panics:{}", name), "detail": format!("{}", &text[..text.len().min(300)])})),
                     Got::Ok(_) if must_err => out.put(json!({"sig": format!("urdf:faulty-description-accepted:{}", name), "detail": format!("{}", &text[..text.len().min(300)])})),
